@@ -238,6 +238,8 @@ def check_model(ctx, kind, m, twin_raise, p, handle, D, kw, hist, form):
     try:
         res = m.calc_path_loss_dB(Din, **kw)
         raised = None
+        if isinstance(res, np.ndarray):
+            ctx.hold("values-vs-fresh-scalar", "calc_path_loss_dB", res)
     except RuntimeError as e:
         raised = e
     except Exception as e:
